@@ -44,11 +44,11 @@ func NewBytesLength(length int) *Bytes {
 // Bytes implements Blob.
 func (b *Bytes) Bytes() []byte {
 	// always return a copy of the bytes, to avoid concurrent modification
-	newB, err := b.Slice(0, int64(b.Len()))
-	if err != nil {
-		panic(err)
-	}
-	return newB.(*Bytes).bytes
+	b.mu.Lock()
+	buf := make([]byte, len(b.bytes))
+	copy(buf, b.bytes)
+	b.mu.Unlock()
+	return buf
 }
 
 // Len implements Blob.
@@ -56,19 +56,29 @@ func (b *Bytes) Len() int {
 	return int(atomic.LoadInt64(&b.length))
 }
 
-// View implements Blob.
-func (b *Bytes) View(start, end int64) (Blob, error) {
-	if start < 0 || start > int64(b.Len()) {
-		return nil, fmt.Errorf("Start index out of bounds: %d", start)
+// checkRange validates a [start, end) range against the current contents. The caller holds b.mu, so the
+// answer cannot be invalidated by a concurrent Truncate before the range is used.
+func (b *Bytes) checkRange(start, end int64) error {
+	length := int64(len(b.bytes))
+	if start < 0 || start > length {
+		return fmt.Errorf("Start index out of bounds: %d", start)
 	}
-	if end < 0 || end > int64(b.Len()) {
-		return nil, fmt.Errorf("End index out of bounds: %d", end)
+	if end < 0 || end > length {
+		return fmt.Errorf("End index out of bounds: %d", end)
 	}
 	if start > end {
-		return nil, fmt.Errorf("Start index must not exceed end index: %d > %d", start, end)
+		return fmt.Errorf("Start index must not exceed end index: %d > %d", start, end)
 	}
+	return nil
+}
+
+// View implements Blob.
+func (b *Bytes) View(start, end int64) (Blob, error) {
 	b.mu.Lock()
 	defer b.mu.Unlock()
+	if err := b.checkRange(start, end); err != nil {
+		return nil, err
+	}
 	newB := NewBytes(b.bytes[start:end])
 	newB.mu = b.mu
 	return newB, nil
@@ -76,19 +86,13 @@ func (b *Bytes) View(start, end int64) (Blob, error) {
 
 // Slice implements Blob.
 func (b *Bytes) Slice(start, end int64) (Blob, error) {
-	if start < 0 || start > int64(b.Len()) {
-		return nil, fmt.Errorf("Start index out of bounds: %d", start)
-	}
-	if end < 0 || end > int64(b.Len()) {
-		return nil, fmt.Errorf("End index out of bounds: %d", end)
-	}
-	if start > end {
-		return nil, fmt.Errorf("Start index must not exceed end index: %d > %d", start, end)
+	b.mu.Lock()
+	defer b.mu.Unlock()
+	if err := b.checkRange(start, end); err != nil {
+		return nil, err
 	}
 	buf := make([]byte, end-start)
-	b.mu.Lock()
 	copy(buf, b.bytes[start:end])
-	b.mu.Unlock()
 	return NewBytes(buf), nil
 }
 
@@ -105,8 +109,12 @@ func (b *Bytes) Set(src Blob, destStart int64) (n int, err error) {
 	}
 	srcBytes := src.Bytes() // read the source before locking: it may be a view sharing this blob's mutex
 	b.mu.Lock()
+	defer b.mu.Unlock()
+	if destStart > int64(len(b.bytes)) {
+		// shrunk by a concurrent Truncate since the check above
+		return 0, fmt.Errorf("Offset out of bounds: %d", destStart)
+	}
 	n = copy(b.bytes[destStart:], srcBytes)
-	b.mu.Unlock()
 	return n, nil
 }
 
